@@ -380,7 +380,7 @@ func (x *fx) store(m *memNode, p *Val, v *Val) *memNode {
 		return x.storeAt(m, t, ptrRef(p.S), ptrOff(p.S), v.S)
 	}
 	pe := p.Path[0]
-	x.checkFrameStore(nil, ptrRef(p.S), ptrOff(p.S), &pe)
+	x.checkFrameStore(nil, ptrRef(p.S), ptrOff(p.S), &pe, p.Path[1:]...)
 	name := x.fieldMemNameOf(pe)
 	root := x.memRead(m, name, ptrRef(p.S), ptrOff(p.S))
 	return x.memWrite(m, name, ptrRef(p.S), ptrOff(p.S), x.updatePath(root, pe.T, p.Path[1:], v.S))
